@@ -189,7 +189,8 @@ struct Driver {
           p.fail[s.id].first = kSt[H(4)];
         }
       } else if (c < prof.pm_cmd_fail + prof.pm_cmd_signal) {
-        static const int kSig[] = {SIGSEGV, SIGKILL, SIGABRT};
+        // (SIGSEGV and SIGABRT usually leave a core file: bit 0x80 of the wait status)
+        static const int kSig[] = {SIGSEGV | 0x80, SIGKILL, SIGABRT | 0x80};
         p.fail[s.id] = std::make_pair(kSig[H(3)], (int)H(3));
       }
     }
